@@ -785,9 +785,11 @@ def _looks_float(e):
     return False
 
 
-def switch_edge_predicates(body, bb, origin=None):
+def switch_edge_predicates(body, bb, origin=None, drop_const_phi=False):
     """For a switch block: list of (target_bb, predicate_text).  Discriminant switches give
-    'variant(<place>) = V' / '∉{..}', bool switches give the atom or its negation."""
+    'variant(<place>) = V' / '∉{..}', bool switches give the atom or its negation.
+    drop_const_phi: render a flag `phi(const | X)` as X — only for a caller that itself follows the constant assignments of that flag along each path
+    (pathsens.explore); for a flow-insensitive reader the false edge of such a switch is NOT `¬X`."""
     t = body.blocks[bb]['t']
     if t['k'] != 'switch':
         return []
@@ -797,7 +799,7 @@ def switch_edge_predicates(body, bb, origin=None):
     if t.get('onty') == 'bool':
         threaded_successors(body)
         ti = getattr(body, '_threaded_info', {}).get(bb)
-        dcp = bool(ti and len(ti['threaded']) == ti['const_defs'])
+        dcp = drop_const_phi or bool(ti and len(ti['threaded']) == ti['const_defs'])
         atom, neg = atom_of(e, body, dcp)
         for v, tg in t['tg']:
             truth = (v != 0)
